@@ -29,6 +29,31 @@ def _coord_scopes(fn, coord_param):
                 out.append((callee, k.arg))
     return out
 
+def _coord_scopes3(fn, coord_param, size_attr):
+    """As _coord_scopes, with the name under which each scope knows the
+    count the coordinates are compared with: the parameter that receives
+    `size_attr` in a helper, `size_attr` itself otherwise."""
+    out = [(fn, coord_param, size_attr)]
+    for c in _calls_in(fn.node):
+        callee = resolve_local_call(fn, c)
+        if callee is None:
+            continue
+        params = [p for p in callee.params if p not in ("self", "cls")]
+        bind = {}
+        for i, a in enumerate(c.args):
+            if i < len(params):
+                bind[params[i]] = a
+        for k in c.keywords:
+            if k.arg:
+                bind[k.arg] = k.value
+        cn = [p for p, a in bind.items()
+              if isinstance(a, ast.Name) and a.id == coord_param]
+        sn = [p for p, a in bind.items() if norm(a) == size_attr]
+        for p in cn:
+            out.append((callee, p, sn[0] if sn else size_attr))
+    return out
+
+
 def _elem_sources(fn, defs):
     """name -> set of source texts for names bound to *elements* of an
     iterable (comprehension / for targets, incl. through zip)."""
@@ -120,11 +145,12 @@ def strict_morton_bound(repo, col):
     size_attr = "self.grid_sizes"
     found = []
     mentions = False
-    for g, coord_param in _coord_scopes(fn, params[0]):
+    for g, coord_param, size_name in _coord_scopes3(fn, params[0],
+                                                    size_attr):
         if size_attr in norm(g.node):
             mentions = True
         found += [(g, st, a) for st, a in _index_vs_count_atoms(
-            g, coord_param, size_attr)]
+            g, coord_param, size_name)]
     if not mentions:
         raise AnalysisError("anchor vanished: %s in %s" % (size_attr, fn.key))
     if not found:
@@ -521,7 +547,7 @@ def cmc_lattice(repo, col):
     """get_cmc: each lower coordinate rejected unless a multiple of the
     chunk size on its own axis."""
     rule = "E-BOUND.lattice"
-    fn = repo.func("sharded_base", "ShardVolumeSpec.get_cmc")
+    fn = repo.func("sharded_base", "ShardVolumeSpec.get_cmc", inline=True)
     defs = local_defs(fn.node)
     params = [p for p in fn.params if p != "self"]
     coord_param = params[0]
